@@ -52,6 +52,7 @@ Inductive act :=
 | StartAgain                       (* Session.Start once more: startOnce makes it a no-op *)
 | SetHandler (h : nat)             (* Session.UpdateHandler *)
 | PeerClose | PeerRead | PeerByte
+| PeerPause                        (* the peer stops reading (or has not begun to): writes fill the buffers and then block *)
 | RecvFault (k : rkind) | WriteFault (k : wkind)
 | SendStep | SendLost | RecvEnd
 | Pick.                           (* the leaving loop, inside exitOnce, reads s.rh and calls that handler's OnExit; the callback may
@@ -131,6 +132,7 @@ Definition sess_step (s : sess) (a : act) : option (sess * bool) :=
       Some (set_hx s (mkHx h (exit_h (hx s)) (amb (hx s) || rcause s || lclosed s || wfail s) (picked (hx s))), false)
   | PeerClose => if peer_open s then Some (set_clean (set_rcause (set_peer_open s false) true) false, false) else None
   | PeerRead => if peer_open s && negb (peer_reads s) then Some (set_peer_reads s true, false) else None
+  | PeerPause => if peer_open s && peer_reads s then Some (set_peer_reads s false, false) else None
   | PeerByte =>                                     (* the peer writes one ordinary byte *)
       if peer_open s then
         if recvl s && negb (rcause s) && copen s
